@@ -70,6 +70,12 @@ func evalImpl(c Case) (res result) {
 			if implReply(c.Code) != int(rfcReply(c.Code)) {
 				res.key, res.det = "socks5-reply-code", fmt.Sprintf("dial result %d must be reported as reply %d, ReplyFromDialResultCode gives %d", c.Code, rfcReply(c.Code), implReply(c.Code))
 			}
+		case "mkaddr":
+			// a well-formed address (domain 1..255 bytes) that the code refuses to represent / encode
+			res.skip, res.bkt = true, "address-refused"
+			if _, err := c.Addr.connAddr(); err != nil || c.Probe != "" {
+				res.key, res.det = "address-refused", fmt.Sprintf("well-formed address %v (domain of %d bytes) refused: %s", c.Addr, len(c.Addr.Host)/2, c.Probe)
+			}
 		case "https":
 			res = evalHTTPS(c)
 		case "httpc":
